@@ -1337,6 +1337,9 @@ func (in *Interp) sliceOp(instr *ssa.Slice, x, lo, hi, max Value) Value {
 	switch x := x.(type) {
 	case Str:
 		n := x.Len()
+		if r, ok := in.symStrSlice(instr, x, lo, hi); ok {
+			return r
+		}
 		l, h := getInt(lo, 0), getInt(hi, n)
 		if l < 0 || h < l || h > n {
 			if in.mergeGuard != nil {
@@ -1376,6 +1379,49 @@ func (in *Interp) sliceOp(instr *ssa.Slice, x, lo, hi, max Value) Value {
 		return []Value(a)[l:h:m]
 	}
 	panic(fmt.Sprintf("Slice on %T", x))
+}
+
+// symStrSlice handles s[lo:hi] with symbolic bounds whose difference is a
+// constant k: the result is a k-byte string of select terms (no fork).
+func (in *Interp) symStrSlice(instr *ssa.Slice, x Str, lo, hi Value) (Value, bool) {
+	ts := in.ts
+	n := x.Len()
+	var loT, hiT *Term
+	if lo != nil {
+		loT = lo.(*Term)
+	} else {
+		loT = ts.BVConst(0, 64)
+	}
+	if hi != nil {
+		hiT = hi.(*Term)
+	} else {
+		hiT = ts.BVConst(uint64(n), 64)
+	}
+	if loT.IsConst() && hiT.IsConst() {
+		return nil, false
+	}
+	if loT.sort != hiT.sort {
+		return nil, false
+	}
+	d := ts.Sub(hiT, loT)
+	if !d.IsConst() {
+		return nil, false
+	}
+	k := int(sext64(d.k, d.sort.W))
+	if k < 0 || k > n || k > 8 {
+		return nil, false
+	}
+	w := int(loT.sort.W)
+	in.trapCheck(ts.ULe(loT, ts.BVConst(uint64(n-k), w)), "runtime error: slice bounds out of range (symbolic bounds)", instr.Pos())
+	elems := make([]Value, n)
+	for i := range elems {
+		elems[i] = in.strByte(x, i)
+	}
+	out := make([]*Term, k)
+	for i := 0; i < k; i++ {
+		out[i] = in.selectElem(elems, ts.Add(loT, ts.BVConst(uint64(i), w))).(*Term)
+	}
+	return normStr(out), true
 }
 
 func (in *Interp) typeAssert(instr *ssa.TypeAssert, itf Iface) Value {
